@@ -98,22 +98,43 @@ class SimLoader:
 
 # ----------------------------------------------------------------------------- ownership / generators
 class Owned:
-    __slots__ = ("rule", "cant_delete", "children")
+    __slots__ = ("rule", "cant_delete", "children", "key_re")
 
-    def __init__(self, rule, cant_delete=None, children=None):
+    def __init__(self, rule, cant_delete=None, children=None, key_re=None):
         self.rule, self.cant_delete, self.children = rule, cant_delete, children if children is not None else []
+        self.key_re = key_re      # the generator lists the block only for some keys:  lit */re/
+
+    def pattern(self, rev):
+        p = self.rule.pattern(rev)
+        if self.key_re:
+            ws = p.split()
+            i = ws.index("*")
+            ws[i] = "*/%s/" % self.key_re
+            p = " ".join(ws)
+        return p
+
+    def covers(self, row, rev):
+        """does this ACL line match the row (given that the row instantiates self.rule)"""
+        if not self.key_re:
+            return True
+        import re
+        key = W.match_one(self.rule, row, rev)
+        if key is None:
+            m = W.match_removal([self.rule], [], row, rev)
+            key = m[1] if m else None
+        return bool(key) and re.fullmatch(self.key_re, key[0]) is not None
 
     def eff_cant_delete(self, rev):
         if self.cant_delete is not None:
             return bool(self.cant_delete)
-        return self.rule.pattern(rev).startswith("interface")
+        return self.pattern(rev).startswith("interface")
 
 
 def acl_text(owned, rev, ind=0):
     lines = []
     for o in owned:
         r = o.rule
-        line = "    " * ind + r.pattern(rev)
+        line = "    " * ind + o.pattern(rev)
         if o.cant_delete is not None:
             line += " %%cant_delete=%d" % o.cant_delete
         if r.is_global:
@@ -131,12 +152,13 @@ def project(tree, owned, rb, rules, owned_globals=()):
     out = odict()
     if owned == "ALL":
         return _deep(tree)
-    omap = {o.rule.uid: o for o in owned}
+    omap = {}
     for row, sub in tree.items():
         m = W.match_direct(rules, rb.globals, row, rb.rev)
         if m is None:
             continue
         r = m[0]
+        omap = {o.rule.uid: o for o in owned if o.covers(row, rb.rev) or o.rule is not r}
         if r.uid not in omap and r.twin is not None and r.twin.uid in omap and not r.block:
             out[row] = odict()          # the generator asks for the other form of a setting it owns
             continue
